@@ -716,6 +716,13 @@ def is_transparent(c):
             return True
     if d.startswith("std::pin::Pin") and c.name in ("new_unchecked", "new", "as_mut", "get_mut", "get_unchecked_mut"):
         return True
+    if (d.startswith("std::option::Option") or d.startswith("std::result::Result")) and c.name == "map" and len(c.args) > 1:
+        # `.map(Some)` / `.map(Self::Variant)` / `.map(Wrapper)`: a constructor applied to the success value
+        k = op_const(c.args[1])
+        if k and "fn" in k:
+            last = (k["fn"].get("full") or "").split("::")[-1]
+            if last[:1].isupper():
+                return True
     return False
 
 
@@ -954,6 +961,22 @@ def guard_strings(body, bb):
             elif g.get("place") is not None:
                 for d in sorted(describe_place(body, g["place"], 16, set())):
                     out.append("%s=%s" % (val, d))
+        elif g["kind"] == "int":
+            # integer switch (e.g. `match field.id() { 0 => .., 1 => .., _ => .. }`)
+            if g.get("call") is not None:
+                c = g["call"]
+                argd = []
+                for o in c.args[:3]:
+                    ds = sorted(describe(body, o))
+                    argd.append("|".join(ds[:3]))
+                subj = ["%s(%s)" % (short_fn(c.callee), ", ".join(argd))]
+            elif g.get("place") is not None:
+                subj = sorted(describe_place(body, g["place"], 16, set()))
+            else:
+                subj = ["?"]
+            for lab in labels:
+                for sj in subj:
+                    out.append("%s=int(%s)" % (lab, sj))
     return out
 
 
